@@ -528,3 +528,154 @@ pub fn generate(r: &mut Rng, tier: &str, emit: &mut dyn FnMut(String)) {
         emit(line);
     }
 }
+
+/// Daemon-level histories (`sim C18`): ONE daemon on one to three simulated interfaces (IPv4
+/// only, IPv6 only, dual stack, differing subnets), a browse (and sometimes a hostname
+/// search), announcements of a dual-stack responder delivered on chosen links - so that an
+/// IPv4-only interface learns AAAA records too -, own registrations, then enable / disable
+/// selections of every kind and changes of the interface table, and finally a fresh browse
+/// that reports from the cache.
+pub fn gen_links(r: &mut crate::util::Rng) -> String {
+    use crate::scen::*;
+    use crate::util::hex;
+    // (name, index, ip, prefix, v4, source address of a peer on that link)
+    let topo: Vec<(&str, u32, &str, u8, bool, &str)> = match r.below(6) {
+        0 => vec![("eth0", 2, "192.168.1.10", 24, true, "192.168.1.50")],
+        1 => vec![("eth0", 2, "192.168.1.10", 24, true, "192.168.1.50"), ("eth0", 2, "fe80::10", 64, false, "fe80::50")],
+        2 => vec![("eth0", 2, "192.168.1.10", 24, true, "192.168.1.50"), ("eth1", 3, "10.0.0.5", 8, true, "10.0.0.50")],
+        3 => vec![
+            ("eth0", 2, "192.168.1.10", 24, true, "192.168.1.50"),
+            ("eth0", 2, "fe80::10", 64, false, "fe80::50"),
+            ("eth1", 3, "fd00::5", 64, false, "fd00::50"),
+        ],
+        4 => vec![("eth1", 3, "fd00::5", 64, false, "fd00::50")],
+        _ => vec![
+            ("eth0", 2, "192.168.1.10", 24, true, "192.168.1.50"),
+            ("eth1", 3, "10.0.0.5", 8, true, "10.0.0.50"),
+            ("eth2", 4, "172.16.0.5", 16, true, "172.16.0.50"),
+        ],
+    };
+    let table = |t: &[(&str, u32, &str, u8, bool, &str)]| -> String {
+        let mut s = format!("{}", t.len());
+        for (n, i, ip, p, _, _) in t {
+            s.push_str(&format!(" {} {} {} {}", hx(n), i, ip, p));
+        }
+        s
+    };
+    let mut cmds: Vec<String> = vec![format!("daemon {}", table(&topo))];
+    let ipint = *r.pick(&[1u64, 1, 5, 100_000]);
+    cmds.push(format!("ipint 0 {}", ipint));
+    let mut now = 1_000_000u64;
+    cmds.push(format!("run {}", now));
+    let ninst = r.range(1, 2) as usize;
+    let insts: Vec<Inst> = (0..ninst)
+        .map(|k| {
+            let mut i = gen_inst(r, k);
+            i.label = format!("svc{}", k);
+            i.ty = "_http._tcp.local.".to_string();
+            i.host = format!("peer{}.local.", k);
+            // a dual-stack responder: one address per subnet of the topology plus stray ones
+            i.addrs = vec![
+                "192.168.1.50".parse().unwrap(),
+                "fe80::50".parse().unwrap(),
+                "10.0.0.50".parse().unwrap(),
+                "fd00::50".parse().unwrap(),
+            ];
+            i.addrs.truncate(r.range(2, 4) as usize);
+            i
+        })
+        .collect();
+    cmds.push(format!("browse 0 1 {}", hx("_http._tcp.local.")));
+    if r.chance(1, 3) {
+        cmds.push(format!("resolve 0 2 {} none", hx(&insts[0].host)));
+    }
+    cmds.push(format!("run {}", now));
+    if r.chance(1, 3) {
+        // an own service with addresses on several subnets
+        cmds.push(format!(
+            "register 0 {} {} {} 80 3 192.168.1.10 10.0.0.5 fd00::5 0 {} 0",
+            hx("_x._udp.local."),
+            hx("mine"),
+            hx("me.local."),
+            r.below(2)
+        ));
+    }
+    let long = Ttls { ptr: 4500, srv: 120, txt: 4500, addr: 120 };
+    let deliver = |r: &mut crate::util::Rng, cmds: &mut Vec<String>, t: &[(&str, u32, &str, u8, bool, &str)]| {
+        for inst in &insts {
+            let recs = recs_of(inst, &long, true);
+            // on one or several links of the current table
+            for l in t {
+                if r.chance(2, 3) {
+                    cmds.push(format!(
+                        "inject 0 {} {} {} 5353 {}",
+                        l.1,
+                        if l.4 { 1 } else { 0 },
+                        l.5,
+                        response(&recs[..1], &recs[1..])
+                    ));
+                }
+            }
+        }
+    };
+    deliver(r, &mut cmds, &topo);
+    now += *r.pick(&[100u64, 1000, 2500]);
+    cmds.push(format!("run {}", now));
+    // selections and table changes
+    let mut cur = topo.clone();
+    for _ in 0..r.range(1, 3) {
+        match r.below(10) {
+            0..=5 => {
+                let kind = match r.below(8) {
+                    0 => "all".to_string(),
+                    1 => "v4".to_string(),
+                    2 => "v6".to_string(),
+                    3 => format!("name {}", hx(*r.pick(&["eth0", "eth1", "eth2"]))),
+                    4 => format!("addr {}", r.pick(&topo).2),
+                    5 => format!("idx4 {}", r.pick(&[2u32, 3, 4])),
+                    6 => format!("idx6 {}", r.pick(&[2u32, 3])),
+                    _ => format!("name {}", hx("eth0")),
+                };
+                let on = r.chance(1, 4);
+                cmds.push(format!("{} 0 {}", if on { "enable" } else { "disable" }, kind));
+            }
+            6 | 7 => {
+                // an interface (or one address of it) disappears; maybe another appears
+                if !cur.is_empty() && (cur.len() > 1 || r.chance(1, 2)) {
+                    let k = r.below(cur.len() as u64) as usize;
+                    cur.remove(k);
+                }
+                if r.chance(1, 4) {
+                    cur.push(("eth9", 9, "192.168.9.5", 24, true, "192.168.9.50"));
+                }
+                cmds.push(format!("ifaces 0 {}", table(&cur)));
+            }
+            8 => {
+                cur = topo.clone();
+                cmds.push(format!("ifaces 0 {}", table(&cur)));
+            }
+            _ => deliver(r, &mut cmds, &cur),
+        }
+        now += *r.pick(&[0u64, 500, 1500, 6000]);
+        cmds.push(format!("run {}", now));
+    }
+    // let the interface check run, then report from the cache on a fresh channel
+    // (the first check of a daemon comes 5 s after its start, later ones `ipint` apart)
+    now = if ipint <= 5 { now.max(1_005_000) + ipint * 1000 + 2500 } else { now + 2000 };
+    cmds.push(format!("run {}", now));
+    cmds.push(format!("browse 0 5 {}", hx("_http._tcp.local.")));
+    if r.chance(1, 2) {
+        cmds.push(format!("resolve 0 6 {} none", hx(&insts[0].host)));
+    }
+    now += 1500;
+    cmds.push(format!("run {}", now));
+    let _ = hex(&[]);
+    format!("sim C18 {}", cmds.join(" ; "))
+}
+
+pub fn generate_daemon(r: &mut crate::util::Rng, tier: &str, emit: &mut dyn FnMut(String)) {
+    let n = if tier == "thorough" { 3000 } else { 300 };
+    for _ in 0..n {
+        emit(gen_links(r));
+    }
+}
